@@ -2,7 +2,7 @@
    get_p_prob, Bs/BsUnc/Bss cores and brier_edges are GENERATED from /repo's verif/metric.py;
    thr_from_ens is the hand model (Model/Brier.v) of the ensemble fallback in Data._get_score. *)
 From Coq Require Import Reals ZArith List Bool.
-From VF Require Import Base.Num Base.Vec Base.Event Gen.Gen_interval Gen.Gen_prob Model.Brier Proofs.RList Proofs.C08_proofs.
+From VF Require Import Base.Num Base.Vec Base.Event Gen.Gen_interval Gen.Gen_prob Model.Brier Proofs.RList Proofs.C08_proofs Proofs.C08_cov.
 Import ListNotations.
 Local Open Scope R_scope.
 
@@ -60,6 +60,19 @@ Proof. exact thr_from_ens_all_missing. Qed.
 (* quantile (pinball) score: every term is non-negative for a level in [0, 1] (perfect score 0) *)
 Theorem C08_pinball_term_nonnegative : forall q e, 0 <= q <= 1 -> 0 <= e * (q - (if Rltb e 0 then 1 else 0)).
 Proof. exact pinball_term_nonneg. Qed.
+
+(* quantile coverage ("capture"): the share of cases whose observation lies between the two forecast quantiles;
+   the lower end is closed iff the bin type closes the lower end, the upper end iff it closes the upper end *)
+Theorem C08_coverage_counts_observations_inside_the_quantile_interval : forall a b le ue obs q0 q1,
+  length obs = length q0 -> length obs = length q1 ->
+  QuantileCoverage_core XR (Build_interval XR (Fin a) (Fin b) le ue) (F obs) (F q0) (F q1) =
+  bmean XR (map (fun t => inside le ue (snd (fst t)) (fst (fst t)) (snd t)) (zip3 obs q0 q1)).
+Proof. exact coverage_two_sided. Qed.
+Theorem C08_coverage_below_looks_at_the_upper_quantile : forall b le ue obs q0 q1,
+  QuantileCoverage_core XR (Build_interval XR NInf (Fin b) le ue) (F obs) (F q0) (F q1) =
+  bmean XR (map (fun t => if ue then (Rltb (snd t) (fst t) || Reqb (snd t) (fst t)) else Rltb (snd t) (fst t)) (combine q1 obs)).
+Proof. exact coverage_below. Qed.
+Print Assumptions C08_coverage_counts_observations_inside_the_quantile_interval.
 
 Print Assumptions C08_brier_skill_score_definition.
 Print Assumptions C08_probability_in_exactly_one_bin.
